@@ -436,6 +436,10 @@ func (tt *TermTable) bin(op Op, a, b *Term) *Term {
 			if b.Val&(b.Val+1) == 0 && a.Hi <= b.Val {
 				return a
 			}
+			// every possible one-bit of a lies below the lowest set bit of the mask
+			if a.Hi < b.Val&-b.Val {
+				return tt.Const(w, 0)
+			}
 		}
 		if a == b {
 			return a
